@@ -81,8 +81,7 @@ FixFired(f, x) ==
           /\ SomeP(x, LAMBDA p : p.typ = "Union_int_str" /\ p.def = "int_neg"))  \* round 1 returns an AST default, round 2 cannot emit it
      \/ (d = "fix_argparse_dict_decays_to_str" /\ f = "argparse"
           /\ SomeP(x, LAMBDA p : p.typ = "dict" /\ p.def = "absent"))         \* dict -> Optional[dict] = None -> Optional[str]
-     \/ (d = "fix_gn_return_dot_after_forced_default" /\ f \in {"docstring_google", "docstring_numpydoc"} /\ x.ret # NoRet
-          /\ SomeP(x, LAMBDA p : p.def \notin {"absent", "str_empty"}))    \* round 1 forces a return default, round 2 then appends "."
+     \* (repaired, 867cf18: Google/NumPy round 1 forced a default on the return entry, round 2 then appended "." to its description)
      \/ (d = "fix_str_default_with_dot_drifts" /\ f \in DocFmts /\ SomeP(x, LAMBDA p : p.def = "str_dot" /\ p.typ = "absent"))   \* cut at the first full stop, again on every round
      \/ (d = "fix_sqlalchemy_doc_whitespace_grows" /\ f = "sqlalchemy")      \* every round indents the class description once more
      \/ (d = "fix_numpydoc_untyped_unstable" /\ f = "docstring_numpydoc" /\ SomeP(x, LAMBDA p : p.typ = "absent"))}    \* (repaired)
